@@ -28,7 +28,8 @@ class Obligation:
 
     def to_json(self):
         return dict(name=self.name, status=self.status, secs=round(self.secs, 4), inputs=self.inputs,
-                    detail=self.detail, trivial=self.trivial)
+                    detail=self.detail, trivial=self.trivial, known_id=self.model if self.status == 'known' else None,
+                    trace=list(self.trace)[-12:])
 
 
 class View:
@@ -154,7 +155,7 @@ class Run:
         raise Unsupported(f'too many values for {term}')
 
     # ---- obligations
-    def oblige(self, name, claim, detail=''):
+    def oblige(self, name, claim, detail='', regions=None):
         key = (name, tuple(self.decisions))
         ex = self.ex
         if key in ex.seen_obligations:
@@ -176,8 +177,32 @@ class Run:
         elif r == z3.sat:
             m = self.solver.model()
             inputs = self.concretize_inputs(m)
+            status, kid = 'failed', None
+            from . import known as _known
+            ents = _known.open_entries_for(ex.known, name)
+            if ents:
+                rs = []
+                whole = False
+                for e in ents:
+                    if e.get('region'):
+                        if regions and e['region'] in regions:
+                            rs.append(regions[e['region']])
+                    else:
+                        whole = True
+                if whole:
+                    status, kid = 'known', ents[0]['id']
+                elif rs:
+                    self.solver.add(z3.Not(zbool(Or(*rs)) if not isinstance(Or(*rs), bool) else z3.BoolVal(Or(*rs))))
+                    r2 = self.solver.check()
+                    if r2 == z3.unsat:
+                        status, kid = 'known', ents[0]['id']
+                    elif r2 == z3.sat:
+                        inputs = self.concretize_inputs(self.solver.model())
+                        detail = (detail + ' [fails OUTSIDE the region of the listed known finding]').strip()
             self.solver.pop()
-            ex.record(Obligation(name, 'failed', secs, inputs=inputs, trace=tuple(self.trace), detail=detail))
+            o = Obligation(name, status, secs, inputs=inputs, trace=tuple(self.trace), detail=detail)
+            o.model = kid
+            ex.record(o)
         else:
             reason = self.solver.reason_unknown()
             smt2 = self.solver.to_smt2() if ex.second_opinion else None
@@ -233,20 +258,32 @@ class Run:
             self.assume(length >= 0)
         v = self.alloc(length, kind, None, kind != 'bytes' if writable is None else writable)
         self.inputs.append((name, 'buf', (v, self.heap)))
+        pin = self.ex.pinned.get(name) if self.ex.pinned else None
+        if pin is not None:
+            data = bytes.fromhex(pin['hex'])
+            self.assume(zint(v.length) == len(data))
+            for k, b in enumerate(data):
+                self.assume(v.at(self.heap, k) == b)
         return v
 
     def input_int(self, name):
         t = self.fresh_int(name)
         self.inputs.append((name, 'int', t))
+        if self.ex.pinned and name in self.ex.pinned:
+            self.assume(t == int(self.ex.pinned[name]))
         return t
 
     def input_bool(self, name):
         t = self.fresh_bool(name)
         self.inputs.append((name, 'bool', t))
+        if self.ex.pinned and name in self.ex.pinned:
+            self.assume(t == bool(self.ex.pinned[name]))
         return t
 
     def input_const(self, name, value):
         self.inputs.append((name, 'const', value))
+        if self.ex.pinned and name in self.ex.pinned and self.ex.pinned[name] != value:
+            raise PathEnd('case not selected by the pinned input')
         return value
 
     def read(self, view, i, heap=None):
